@@ -433,6 +433,7 @@ func main() {
 	timedOutRound(run)
 	repeatedLaunchRound(run)
 	replyReadFails(run)
+	slowReport(run)
 	deploymentIDs(run)
 	for s := 0; s < *nseq; s++ {
 		r := hx.Rng(*seed, s)
@@ -903,6 +904,49 @@ func repeatedLaunchRound(run *hx.Run) {
 		for _, p := range []string{"C10", "C17"} {
 			run.Violate(hx.Violation{Property: p, Clause: "latest_batch_delivered", Signature: "round-after-ignored-launch-round-not-delivered",
 				What: fmt.Sprintf("after a launch round that the DB ignored (already launched), the rounds acknowledged with counts %d and %d carried %v for l1 last; its report was answered with %v", n3, n4, want, got), Ops: ops})
+		}
+	}
+}
+
+// slowReport: the proposal of a report is applied only after the service has given up waiting for it (and is applied all
+// the same, later). That is a lost reply: the call fails. An answer without error still carries the batch scheduled for
+// the address - a service that quietly proposes the report again has it applied twice, and the second application
+// discards what the first one handed over.
+func slowReport(run *hx.Run) {
+	h, slow := nhx.NewSlowDrummerDBHost()
+	defer h.Close()
+	srv := drummer.VerifNewServer(h.NH)
+	addr := "slow1"
+	batch := &pb.NodeHostRequestCollection{Requests: []*pb.NodeHostRequest{
+		{Change: &pb.Request{Type: pb.Request_KILL, ShardId: 3, Members: []uint64{1}}, RaftAddress: addr},
+		{Change: &pb.Request{Type: pb.Request_KILL, ShardId: 4, Members: []uint64{2}}, RaftAddress: addr}}}
+	if _, err := propose(h, &pb.Update{Type: pb.Update_REQUESTS, Requests: batch}); err != nil {
+		run.Count("c17:inconclusive_slow_report")
+		return
+	}
+	old := drummer.VerifSetRaftOpTimeout(300)
+	slow.HoldNext(1, 900*time.Millisecond)
+	reply, err := srv.ReportAvailableNodeHost(ctx(), &pb.NodeHostInfo{RaftAddress: addr, RPCAddress: "rpc-" + addr, Region: "reg0"})
+	drummer.VerifSetRaftOpTimeout(old)
+	time.Sleep(1200 * time.Millisecond)
+	run.Count("case:slow_report_probe")
+	if err != nil {
+		run.Count("c17:slow_report_refused")
+		return
+	}
+	got := []string{}
+	if reply != nil {
+		for _, rq := range reply.Requests {
+			got = append(got, dbx.ReqStr(rq))
+		}
+	}
+	want := []string{dbx.ReqStr(batch.Requests[0]), dbx.ReqStr(batch.Requests[1])}
+	run.Count("c17:slow_report_answered")
+	if strings.Join(got, ",") != strings.Join(want, ",") {
+		ops := []string{fmt.Sprintf("schedule %v for %s", want, addr), "ReportAvailableNodeHost: the report's proposal is applied 900 ms after the service's 300 ms timeout"}
+		for _, p := range []string{"C10", "C17"} {
+			run.Violate(hx.Violation{Property: p, Clause: "reply_is_the_scheduled_batch", Signature: "answered-report-without-its-batch:slow-proposal",
+				What: fmt.Sprintf("the report of %s was answered without error with %v; the batch scheduled for it is %v (the report's proposal timed out and was applied late)", addr, got, want), Ops: ops})
 		}
 	}
 }
